@@ -151,6 +151,7 @@ type Run struct {
 	Stdin      []byte        // nil => /dev/null ("no piped input"); non-nil => a real pipe
 	StdinFile  string        // if set, stdin is this file opened read-only (not a char device => "piped")
 	StdinDelay time.Duration // with Stdin: the pipe delivers its first byte only after this delay (a slow producer)
+	StderrNull bool          // stderr is /dev/null: a character device, as a terminal is (Result.Stderr stays empty)
 	Env        []string      // extra env (KEY=VAL)
 	Dir        string
 	Timeout    time.Duration
@@ -201,6 +202,12 @@ func (s *SUT) exec(bin string, r Run) Result {
 	cmd.WaitDelay = 5 * time.Second
 	var so, se bytes.Buffer
 	cmd.Stderr = &se
+	if r.StderrNull && !r.PipeClose {
+		if dn, err := os.OpenFile(os.DevNull, os.O_WRONLY, 0); err == nil {
+			defer dn.Close()
+			cmd.Stderr = dn
+		}
+	}
 	var pipeDone chan []byte
 	if r.PipeClose {
 		pr, pw, err := os.Pipe()
